@@ -384,7 +384,7 @@ def override_classes(case):
         return []
     cls = ["override"]
     cv, ov = case["ctor"], case.get("override") or []
-    lrk = [k for k in ov if k in ("lr_post", "lr_pre", "lr_post_pair", "lr_pre_pair", "lr_causal", "lr_anti")]
+    lrk = [k for k in ov if k in ("lr_post", "lr_pre", "lr_post_pair", "lr_pre_pair", "lr_causal", "lr_anti", "plasticity")]
     if any((cv["hp"][k] >= 0) != (case["hp"][k] >= 0) for k in lrk):
         cls.append("override_signmode")
     for k in ("mode", "reduction", "delayed"):
